@@ -29,13 +29,13 @@ Definition chk_split (c : circ * res circ) : bool :=
   let '(c0, e) := c in res_beq circ_beq (split_barriers_res c0) e.
 
 (* ---- _combine_barriers : (circuit, expected) ---- *)
-Definition chk_combine (c : circ * circ) : bool :=
-  let '(c0, e) := c in circ_beq (combine_barriers c0) e.
+Definition chk_combine (c : circ * res circ) : bool :=
+  let '(c0, e) := c in res_beq circ_beq (Ok (combine_barriers c0)) e.
 
 (* ---- _partition_labels_from_circuit : (n, circuit, ignore TwoQubitQPDGate?, keep_idle_wires, expected) ---- *)
-Definition chk_labels (c : nat * circ * bool * bool * list label) : bool :=
+Definition chk_labels (c : nat * circ * bool * bool * res (list label)) : bool :=
   let '(n, c0, ign, keep, e) := c in
-  labels_beq (auto_labels n (if ign then is_qpd2 else fun _ => false) keep c0) e.
+  res_beq labels_beq (Ok (auto_labels n (if ign then is_qpd2 else fun _ => false) keep c0)) e.
 
 (* ---- _qubit_map_from_partition_labels : (labels, expected qubit_map, expected qubits_by_subsystem) ---- *)
 Definition chk_qmap (c : list label * qmap * list (nat * list nat)) : bool :=
